@@ -143,3 +143,11 @@ Proof. vm_compute. repeat split. Qed.
 Print Assumptions C16_xmodel_ok.
 Print Assumptions C16_region_exact_read_failure_marks_nothing.
 Print Assumptions C16_region_exact_read_success_exact.
+
+(* pointer guards are QUERIES (red-team round 2, C16-1): ptr_guard() / ptr_guard_mut() of any accessor - slice, typed reference,
+   element array; from any root, along any chain - taken and dropped stores nothing, never calls mark_dirty and leaves the
+   state as it was.  (C05_xstep_is_step lowers the step to a read-type base step reporting len(): C16_precise applies.) *)
+Theorem C16_guard_is_a_query : forall hm rs ri k ch rs' out,
+  run_xstep hm rs (XGuard ri k ch) = (rs', out) -> rs' = rs /\ o_effs out = [].
+Proof. exact C05Root.guard_is_query_lemma. Qed.
+Print Assumptions C16_guard_is_a_query.
